@@ -11,6 +11,8 @@ fresh contiguous arrays; this module re-runs a thinned version of every harness 
   negstride  a view with a negative stride (a[::-1].copy()[::-1])
   positional / keyword   the same call with keyword arguments passed by position / positional arguments passed by name,
              according to the documented signatures recorded in mc/api_signatures.json (tools/gen_signatures.py)
+  intparam   float parameters with an integral value as Python ints
+  series     1-D arrays as pandas Series whose integer labels are not the positions ("array-like")
   npscalar   Python bool / int / float parameters as NumPy scalars (np.bool_ / np.int64 / np.float64)
 
 The case checkers and reference models are untouched: they judge the results exactly as they judge them for
@@ -25,7 +27,8 @@ import pkgutil
 
 import numpy as np
 
-FORMS = ("strided", "readonly", "shared", "negstride", "npscalar", "positional", "keyword")
+FORMS = ("strided", "readonly", "shared", "negstride", "npscalar", "intparam", "positional", "keyword")
+FULL_LABELS = ("op0", "invalid-call")     # choices that are never thinned: every operation / request meets every form
 _SIGS = None
 
 
@@ -127,7 +130,20 @@ def convert(args, kwargs, form, skip_first=False):
         items = items[1:]
     new = {}
     n = 0
-    if form == "npscalar":
+    if form == "intparam":
+        # a float parameter with an integral value handed in as a Python int (a bound 0 / 1, a shift 2, a scale 3)
+        for where, key, v in items:
+            if type(v) is float and v == int(v) and abs(v) < 2 ** 53:
+                new[(where, key)] = int(v)
+                n += 1
+    elif form == "series":
+        # array-like: a pandas Series whose integer labels are NOT the positions (a sorted / filtered frame's column)
+        import pandas as pd
+        for where, key, v in items:
+            if _is_arr(v) and v.ndim == 1:
+                new[(where, key)] = pd.Series(v.copy(), index=np.arange(len(v))[::-1] + 5)
+                n += 1
+    elif form == "npscalar":
         for where, key, v in items:
             if type(v) is bool:
                 new[(where, key)] = np.bool_(v)
@@ -262,7 +278,7 @@ class ThinCtx:
 
     def choose(self, options, label="", costs=None):
         n = options if isinstance(options, int) else len(options)
-        idx = thin(n, self._w)
+        idx = list(range(n)) if label in FULL_LABELS else thin(n, self._w)
         c = self._ctx.choose(len(idx), label, None if costs is None else [costs[i] for i in idx])
         return idx[c] if isinstance(options, int) else options[idx[c]]
 
